@@ -281,6 +281,26 @@ def cmd_params(names):
         shutil.rmtree(work, ignore_errors=True)
 
 
+def cmd_htable():
+    """RESULTS.md for a directory of harmless refactorings: which checks ran against each, which of them alarmed."""
+    rows, quiet, total = [], 0, 0
+    for name in sorted(n for n in os.listdir(SEEDED) if os.path.isdir(os.path.join(SEEDED, n))):
+        meta = load_meta(name)
+        checks = {k: v for k, v in (meta.get('checks') or {}).items() if isinstance(v, dict)}
+        alarms = {k: v for k, v in checks.items() if v.get('exit')}
+        total += len(checks)
+        quiet += len(checks) - len(alarms)
+        what = '; '.join(f"{k}: {'concrete' if v.get('concrete_input') else 'no-failing-input'} {', '.join(s[:70] for s in v.get('signatures', [])[:2])}"
+                         for k, v in sorted(alarms.items())) or 'quiet'
+        rows.append(f"| {name} | {(meta.get('summary') or '')[:110].replace('|', '/')} | {' '.join(sorted(checks))} | {what} |")
+    with open(os.path.join(SEEDED, 'RESULTS.md'), 'w') as f:
+        f.write('# Behaviour-preserving refactorings against the checks\n\n'
+                f'{len(rows)} refactorings, {total} check runs, {quiet} quiet. Regenerated by `LV_SEEDED_DIR=<this dir> harness/run_seeded.py htable` '
+                'from the meta.json files that `iso --props=auto` updates.\n\n'
+                '| id | refactoring | checks run | outcome |\n|---|---|---|---|\n' + '\n'.join(rows) + '\n')
+    print(f'{len(rows)} refactorings, {total} check runs, {quiet} quiet')
+
+
 def cmd_iso(names, props=None, tier='quick', jobs=4):
     from concurrent.futures import ThreadPoolExecutor
     # one snapshot of /verif for the whole batch, so that edits made while it runs do not leak into it
@@ -363,3 +383,5 @@ if __name__ == '__main__':
         cmd_params(a[1:] or sorted(n for n in os.listdir(SEEDED) if os.path.isdir(os.path.join(SEEDED, n))))
     elif a[0] == 'table':
         cmd_table()
+    elif a[0] == 'htable':
+        cmd_htable()
